@@ -141,3 +141,80 @@ func c02Sealed(c *core.Ctx) {
 		c.Sample(map[string]any{"case": cs})
 	})
 }
+
+// ---- a cycle next to a densely connected region that cannot reach back into it, entered through
+// a point declared before the cycle-closing edge: start-up terminates (in about a millisecond)
+
+type c2DHub struct {
+	Peers   []*c2DPeer  `wire:""`
+	Partner *c2DPartner `wire:""`
+}
+type c2DPartner struct {
+	Hub *c2DHub `wire:""`
+}
+type c2DPeer struct {
+	Nm    string
+	Peers []*c2DPeer `wire:""`
+}
+
+func (p *c2DPeer) Naming() string { return p.Nm }
+
+type c02DenseCase struct {
+	Peers int  `json:"peers"`
+	Desc  bool `json:"descending_order,omitempty"`
+}
+
+func c02Dense(c *core.Ctx) {
+	gen := func(yield func(c02DenseCase) bool) {
+		for _, k := range []int{2, 5, 9, 13, 17} {
+			for _, desc := range []bool{false, true} {
+				if !yield(c02DenseCase{k, desc}) {
+					return
+				}
+			}
+		}
+	}
+	Cases(c, gen, func(c *core.Ctx, cs c02DenseCase) {
+		hub, partner := &c2DHub{}, &c2DPartner{}
+		comps := []any{hub, partner}
+		user := map[string]bool{}
+		var base []string
+		var peers []*c2DPeer
+		for i := 0; i < cs.Peers; i++ {
+			p := &c2DPeer{Nm: fmt.Sprintf("peer%02d", i)}
+			peers = append(peers, p)
+			comps = append(comps, p)
+			user[p.Nm] = true
+			base = append(base, p.Nm)
+		}
+		if cs.Desc {
+			sort.Sort(sort.Reverse(sort.StringSlice(base)))
+		}
+		o := scen.Start(scen.StartSpec{Ch: envx.Fixed("", nil), Comps: comps, User: user, Base: base, MaxCalls: 400*(cs.Peers*cs.Peers+cs.Peers+4) + 40000})
+		c.S.Evaluations++
+		c.S.Programs++
+		c.S.States++
+		c.S.Nontrivial++
+		c.S.Transitions += int64(o.Trace.Calls)
+		key := "C02/dense/" + core.Hash(cs)
+		desc := fmt.Sprintf("hub <-> partner cycle, the hub's slice of %d peers (each holding all the others) declared before the cycle-closing point", cs.Peers)
+		switch {
+		case !o.OK():
+			c.Outcome("dense/start-failed")
+			c.Report(key, "legal-graph-failed", desc+": start-up did not succeed: "+scen.FirstLine(o.Err)+o.Panic+o.Abort, cs)
+		case len(hub.Peers) != cs.Peers || hub.Partner != partner || partner.Hub != hub:
+			c.Outcome("dense/not-populated")
+			c.Report(key, "point-not-populated", fmt.Sprintf("%s: the hub holds %d peers, partner wired: %v / %v", desc, len(hub.Peers), hub.Partner == partner, partner.Hub == hub), cs)
+		default:
+			for _, p := range peers {
+				if len(p.Peers) != cs.Peers-1 {
+					c.Outcome("dense/not-populated")
+					c.Report(key, "point-not-populated", fmt.Sprintf("%s: %s holds %d of the %d other peers", desc, p.Nm, len(p.Peers), cs.Peers-1), cs)
+					return
+				}
+			}
+			c.Outcome(fmt.Sprintf("dense/ok/peers=%d", cs.Peers))
+		}
+		c.Sample(map[string]any{"case": cs, "registry_calls": o.Trace.Calls})
+	})
+}
